@@ -264,9 +264,20 @@ class CSSRuleRules(CSSRule):
             rule = tempsheet.cssRules[0]
 
         elif isinstance(rule, css_parser.css.CSSRuleList):
-            # insert all rules
-            for i, r in enumerate(rule):
-                self.insertRule(r, index + i)
+            # insert all rules - or none: if one of them is refused the
+            # rules already inserted are taken out again
+            oldrules = list(self._cssRules)
+            try:
+                for i, r in enumerate(rule):
+                    self.insertRule(r, index + i)
+            except xml.dom.DOMException:
+                for r in self._cssRules:
+                    if not any(r is o for o in oldrules):
+                        r._parentRule = None
+                del self._cssRules[:]
+                for r in oldrules:
+                    self._cssRules.insert(len(self._cssRules), r)
+                raise
             return True, True
 
         elif not isinstance(rule, css_parser.css.CSSRule):
